@@ -174,8 +174,10 @@ def _rel(p, q, tol):
     return abs(p - q) <= tol * max(abs(p), abs(q)) + 1e-300
 
 
-def grid_verdict(opcode, schema, a, ao, b):
-    """(what is wrong | None, decoded implementation, decoded model) for one grid case"""
+def grid_verdict(opcode, schema, a, ao, b, strict2=True):
+    """(what is wrong | None, decoded implementation, decoded model) for one grid case.  strict2=False: the second
+    derivatives are left to the ordinary comparison (a function of a PRODUCT x*y has a mixed second derivative
+    f'(s) + s f''(s) whose two terms can cancel - to exactly zero for log - so that entry is rounding noise of the terms)"""
     s1, s2 = ["f", "dual", "vec"], ["f", "dual2", "vec", "mat", "dual", "dual"]
     da, db, do = dg.decode(a, schema), dg.decode(b, schema), dg.decode(ao, s2 if opcode == 1 else s1)
     what = None
@@ -185,7 +187,7 @@ def grid_verdict(opcode, schema, a, ao, b):
         ia, ib = da[1], db[1]
         comps = [("plain value", ia[0][1], ib[0][1]), ("value", ia[1]["re"][1], ib[1]["re"][1])]
         comps += [("derivative %d" % k, p[1], q[1]) for k, (p, q) in enumerate(zip(ia[2], ib[2]))]
-        if opcode == 2:
+        if opcode == 2 and strict2:
             comps += [("second derivative %d" % k, p[1], q[1]) for k, (p, q) in enumerate(zip(ia[3]["data"], ib[3]["data"]))]
         for nm, p, q in comps:
             if not _rel(p, q, 1e-9):
@@ -204,6 +206,10 @@ def grid_verdict(opcode, schema, a, ao, b):
         elif what is None and do[0] != da[0]:
             what = "first-order and second-order evaluation end differently: %s vs %s" % (da[0], do[0])
     return what, da, db
+
+
+def _composite(e):
+    return isinstance(e, tuple) and any(isinstance(x, tuple) and x[0] == "mul" for x in e[1:])
 
 
 def grid_stage(ctx, schema, opcode):
@@ -245,13 +251,13 @@ def grid_stage(ctx, schema, opcode):
     for (env, e), c, a, ao, b in zip(cases, enc, impl, impl_o, model):
         ctx.evaluations += 1
         ctx.count("function grid: " + e[0])
-        what, da, db = grid_verdict(opcode, schema, a, ao, b)
+        what, da, db = grid_verdict(opcode, schema, a, ao, b, strict2=not _composite(e))
         if da[0] == "ok":
             ctx.nontriv(("grid", tuple(c)))
         if what:
             nbad += 1
             ctx.violation("%s: %s" % (describe(env, e), what),
-                          {"expression": dg.show_expr(e), "env": [[n, v] for n, v in env], "case": c, "grid": True,
+                          {"expression": dg.show_expr(e), "env": [[n, v] for n, v in env], "case": c, "grid": True, "composite": _composite(e),
                            "implementation": dg.plain(da), "model": dg.plain(db),
                            "harness_cmd": "echo 'c %s' | harness/target/release/rlharness dual" % " ".join(str(z) for z in c)})
     return nbad
@@ -291,7 +297,7 @@ def replay(ctx, rp):
         sch = SCHEMA if c[0] == 1 else ["f", "dual2", "vec", "mat", "dual", "dual"]
         a, ao = run_harness("dual", ["c " + " ".join(str(x) for x in c), "c " + " ".join(str(x) for x in [3 - c[0]] + list(c[1:]))])
         b = coq_eval(RUNMOD, RUNFN, [c], ctx.work)[0]
-        what, da, db = grid_verdict(c[0], sch, a, ao, b)
+        what, da, db = grid_verdict(c[0], sch, a, ao, b, strict2=not rp.get("composite", False))
         print("replay %s: %s" % (rp.get("expression"), what or "agrees to 1e-9 relative in every component"))
         ctx.cleanup()
         return 1 if what else 0
